@@ -525,7 +525,7 @@ def run(chk, replay=None):
         for ty in TYPES:
             for S in range(1, 9):
                 scripts += directed(ty, S, rng, quick)
-        nrand = 2500 if quick else 40000
+        nrand = 2500 if quick else 80000
         for _ in range(nrand):
             ty = rng.choice(TYPES)
             S = 1 + rng.below(8)
